@@ -165,8 +165,14 @@ class C09(PropBase):
                 cases.append({"kind": "uncond", "g": g, "domains": doms, "event": ev})
             else:
                 o = [[v, [v["n"], rng.random() < 0.3]] for v in [rand_var(rng, g["nodes"])]]
-                used = {o[0][0]["n"]}
+                if rng.random() < 0.3:       # a second outcome (another variable, or the same one in another world)
+                    v2 = rand_var(rng, g["nodes"])
+                    if v2 != o[0][0]:
+                        o.append([v2, [v2["n"], rng.random() < 0.3]])
+                used = {x[0]["n"] for x in o}
                 rest = [k for k in g["nodes"] if Vn(k) not in used]
+                if rng.random() < 0.2:       # a condition on a variable that is also an outcome (P(y, x | x), P(y_x | y))
+                    rest = list(g["nodes"])
                 if not rest:
                     continue
                 cv = rand_var(rng, rest) if len(rest) > 1 else {"k": "V", "n": Vn(rest[0]), "s": None}
